@@ -548,6 +548,81 @@ def neighbours(L, rng, base_id):
     return out
 
 
+def generic_stream(chk, n_cases):
+    """Implementation-only oracle for unions that contain PARAMETRISATIONS of generic classes (outside the Lean model):
+    `Box[int] | Box[str]` (two members with the same fields) must be refused, never guessed; a parametrised member next
+    to distinguishable plain members must come back equal and of its class; one outcome over all member orders."""
+    import dataclasses
+    import itertools as it
+    from typing import Generic, TypeVar, Union
+
+    import attrs
+
+    sys.path.insert(0, os.environ.get("CATTRS_SRC", "/repo/src"))
+    from cattrs import BaseConverter, Converter
+
+    rng = chk.rng
+    T = TypeVar("T")
+    for ci in range(n_cases):
+        tag = f"C12G{chk.seed}_{ci}"
+        own = rng.choice(["v", "val"])
+        Box = attrs.make_class(tag + "Box", {own: attrs.field(type=T), **({"n": attrs.field(type=int, default=0)} if rng.random() < 0.5 else {})},
+                               bases=(Generic[T],))
+        others = []
+        for k in range(rng.randint(0, 2)):
+            others.append(attrs.make_class(f"{tag}O{k}", {f"u{k}": attrs.field(type=int)}))
+        shape = rng.choice(["two-params", "one-param", "param-and-origin-twin"])
+        args = rng.sample([int, str, float, bool], 2)
+        if shape == "two-params":
+            members = [Box[args[0]], Box[args[1]]] + others
+        elif shape == "one-param":
+            members = [Box[args[0]]] + others
+            if len(members) < 2:
+                members.append(attrs.make_class(tag + "P", {"w": attrs.field(type=int)}))
+        else:
+            Twin = attrs.make_class(tag + "Twin", {own: attrs.field(type=args[1])})
+            members = [Box[args[0]], Twin] + others
+        probe = {int: 1, str: "a", float: 1.5, bool: True}
+        insts = []
+        for m in members:
+            origin = getattr(m, "__origin__", None)
+            if origin is not None:
+                insts.append((m, origin(probe[m.__args__[0]])))
+            else:
+                f0 = attrs.fields(m)[0]
+                insts.append((m, m(probe.get(f0.type, 1))))
+        outcomes = {}
+        for order in list(it.permutations(range(len(members))))[:24]:
+            U = Union[tuple(members[i] for i in order)]
+            for conv_cls in (Converter, BaseConverter):
+                conv = conv_cls()
+                row = []
+                for m, x in insts:
+                    try:
+                        u = conv.unstructure(x)
+                        r = conv.structure(u, U)
+                        row.append("ok" if (type(r) is type(x) and r == x) else f"WRONG:{r!r}")
+                    except Exception as e:  # noqa: BLE001 - refusal
+                        row.append("refused")
+                outcomes[(order, conv_cls.__name__)] = row
+                chk.count(("generic", tag, order, conv_cls.__name__))
+                chk.note("generic-stream:" + shape)
+        desc = f"union of {[getattr(m, '__name__', None) or str(m) for m in members]} ({shape})"
+        for key, row in outcomes.items():
+            bad = [r for r in row if r.startswith("WRONG")]
+            if bad:
+                chk.violation(f"C12 oracle (generic stream, never-wrong): {desc}, order {key[0]} on {key[1]}: {row}",
+                              {"ext": True, "members": desc, "order": list(key[0]), "converter": key[1], "row": row})
+                break
+        else:
+            for cn in ("Converter", "BaseConverter"):
+                rows = {tuple(r) for (o, c), r in outcomes.items() if c == cn}
+                if len(rows) > 1:
+                    chk.violation(f"C12 oracle (generic stream, order-independence): {desc} on {cn}: outcomes differ by member order: {sorted(rows)}",
+                                  {"ext": True, "members": desc, "converter": cn, "rows": sorted(map(list, rows))})
+                    break
+
+
 def run(chk):
     from harness import lean
 
@@ -606,6 +681,7 @@ def run(chk):
                          "sampled beyond) x payloads of every member (full, defaults taken, defaulted keys omitted) x "
                          "PYTHONHASHSEED subprocesses; distinct by (layout, order, payload)")
     chk.extra["corr_disagreements"] = len(corr_fail)
+    generic_stream(chk, 40 if quick else 400)
     drv.close()
 
 
